@@ -1,0 +1,119 @@
+//go:build verif
+
+package ttheader
+
+// Contracts for TTHeader decoding (and the byte helpers it uses). Oracle: the info-section
+// grammar in internal/verifspec (Str2BLen, IntKVsLen, StrKVsLen, InfoOK, ProtoOK).
+
+//@ global io.EOF != nil
+
+//@ func Bytes2Uint32NoCheck
+//@   props C03, C06, C10
+//@   requires len(bytes) >= 4
+//@   ensures ret == vs.BE32(bytes, 0)
+
+//@ func Bytes2Uint16NoCheck
+//@   props C03, C06, C10
+//@   requires len(bytes) >= 2
+//@   ensures ret == vs.BE16(bytes, 0)
+
+//@ func Bytes2Uint8
+//@   arith int
+//@   props C03, C10
+//@   requires 0 <= off
+//@   ensures len(bytes) - off < 1 ==> ret1 == io.EOF && ret0 == 0
+//@   ensures len(bytes) - off >= 1 ==> ret1 == nil && ret0 == bytes[off]
+
+//@ func Bytes2Uint16
+//@   arith int
+//@   props C03, C10
+//@   requires 0 <= off
+//@   ensures len(bytes) - off < 2 ==> ret1 == io.EOF && ret0 == 0
+//@   ensures len(bytes) - off >= 2 ==> ret1 == nil && ret0 == vs.BE16(bytes, off)
+
+//@ func ReadString2BLen
+//@   arith int
+//@   props C03, C10
+//@   requires 0 <= off && off <= len(bytes)
+//@   let R = vs.Str2BLen(bytes[off:])
+//@   ensures R < 0 ==> ret2 == io.EOF && ret1 == 0 && len(ret0) == 0
+//@   ensures R >= 0 ==> ret2 == nil && ret1 == R && len(ret0) == R - 2 && eqbytes(ret0, 0, bytes, off + 2, R - 2) && off + R <= len(bytes)
+
+//@ func IsTTHeader
+//@   props C03, C10
+//@   requires len(flagBuf) >= 8
+//@   ensures ret == (vs.BE32(flagBuf, 4) & 0xffff0000 == 0x10000000)
+
+//@ func checkProtocolID
+//@   props C03, C10
+//@   ensures isnil(ret) == vs.ProtoOK(protoID)
+
+//@ func readIntKVInfo
+//@   arith int
+//@   props C03, C10
+//@   requires region(idx) != 0 && 0 <= *idx && *idx <= len(buf) && !isnil(info)
+//@   let i0 = *idx
+//@   let n = len(buf) - i0 >= 2 ? int(vs.BE16(buf, i0)) : 0
+//@   let R = len(buf) - i0 >= 2 ? vs.IntKVsLen(buf[i0+2:], n) : -1
+//@   ensures (err == nil) == (R >= 0)
+//@   ensures err == nil ==> *idx == i0 + 2 + R && *idx <= len(buf)
+//@   assigns *idx
+//@   loop 1 invariant i0 + 2 <= *idx && *idx <= len(buf) && 0 <= i && i <= kvSize && int(kvSize) == n
+//@   loop 1 invariant R == (vs.IntKVsLen(buf[*idx:], n - int(i)) < 0 ? -1 : *idx - i0 - 2 + vs.IntKVsLen(buf[*idx:], n - int(i)))
+//@   loop 1 decreases n - int(i)
+
+//@ func readStrKVInfo
+//@   arith int
+//@   props C03, C10
+//@   requires region(idx) != 0 && 0 <= *idx && *idx <= len(buf) && !isnil(info)
+//@   let i0 = *idx
+//@   let n = len(buf) - i0 >= 2 ? int(vs.BE16(buf, i0)) : 0
+//@   let R = len(buf) - i0 >= 2 ? vs.StrKVsLen(buf[i0+2:], n) : -1
+//@   ensures (err == nil) == (R >= 0)
+//@   ensures err == nil ==> *idx == i0 + 2 + R && *idx <= len(buf)
+//@   assigns *idx
+//@   loop 1 invariant i0 + 2 <= *idx && *idx <= len(buf) && 0 <= i && i <= kvSize && int(kvSize) == n
+//@   loop 1 invariant R == (vs.StrKVsLen(buf[*idx:], n - int(i)) < 0 ? -1 : *idx - i0 - 2 + vs.StrKVsLen(buf[*idx:], n - int(i)))
+//@   loop 1 decreases n - int(i)
+
+//@ func readACLToken
+//@   arith int
+//@   props C03, C10
+//@   requires region(idx) != 0 && 0 <= *idx && *idx <= len(buf) && !isnil(info)
+//@   let i0 = *idx
+//@   let R = vs.Str2BLen(buf[i0:])
+//@   ensures isnil(ret) == (R >= 0)
+//@   ensures isnil(ret) ==> *idx == i0 + R && *idx <= len(buf)
+//@   assigns *idx
+
+//@ func readKVInfo
+//@   arith int
+//@   props C03, C10
+//@   requires 0 <= idx && idx <= len(buf)
+//@   ensures (err == nil) == (vs.InfoOK(buf[idx:]) >= 0)
+//@   loop 1 invariant 0 <= idx && idx <= len(buf) && err == nil
+//@   loop 1 invariant vs.InfoOK(buf[old(idx):]) == vs.InfoOK(buf[idx:])
+//@   loop 1 decreases len(buf) - idx
+
+// Decode, over the bufiox.Reader interface contract (so: for every fragmentation of the
+// stream). `declared` is the header size the frame declares, 4 * the 16-bit size field, as a
+// plain (non-wrapping) number. Completeness of the info sections is readKVInfo's contract,
+// applied by Decode to bytes that equal the stream's.
+//@ func Decode
+//@   arith int
+//@   props C03, C06, C10
+//@   requires !isnil(in)
+//@   let U = in.$u
+//@   let declared = 4 * int(vs.BE16(U, 12))
+//@   let okmeta = len(U) >= 14 && vs.BE32(U, 4) & 0xffff0000 == 0x10000000 && 2 <= declared && declared <= 65536
+//@   ensures err == nil ==> okmeta && len(U) >= 14 + declared && vs.ProtoOK(U[14]) && int(U[15]) <= declared - 2
+//@   ensures !okmeta ==> err != nil
+//@   ensures okmeta && len(U) < 14 + declared ==> err != nil
+//@   ensures okmeta && len(U) >= 14 + declared && !vs.ProtoOK(U[14]) ==> err != nil
+//@   ensures err == nil ==> param.HeaderLen == 14 + declared && param.PayloadLen == int(vs.BE32(U, 0)) + 4 - param.HeaderLen
+//@   ensures err == nil ==> uint16(param.Flags) == vs.BE16(U, 6) && param.SeqID == int32(vs.BE32(U, 8)) && uint8(param.ProtocolID) == U[14]
+//@   ensures err == nil ==> rdTake(in, 14 + declared)
+//@   ensures rdUsed(in) == 0 || rdUsed(in) == 14 || (okmeta && rdUsed(in) == 14 + declared)
+//@   assigns in.$u, in.$readlen, in.$lasterr
+//@   loop 1 invariant 0 <= i && i <= transformIDNum && hdIdx == 2 + i && transformIDNum <= len(headerInfo) - 2 && err == nil
+//@   loop 1 decreases transformIDNum - i
